@@ -116,10 +116,10 @@ def conn_part(v, thorough, sd):
                 raise lib.Inconclusive("c17conn seed %s timed out" % sdd)
             if rc != 0 and not any(e["ev"] == "done" for e in evs):
                 race = "WARNING: DATA RACE" in tail
-                if race and "/repo/" not in tail:
+                if race and lib.REPO_MARK not in tail:
                     raise lib.Inconclusive("data race inside the driver itself:\n" + tail[-1500:])
                 last = [e for e in evs if e["ev"] == "scenario"][-1:] or [{}]
-                reason = ("data race: " + " | ".join([l.strip().split(" ")[0] for l in tail.split("\n") if "/repo/" in l][:3])) if race else ([l for l in tail.split("\n") if l.startswith("panic:") or "fatal error" in l] or ["exit %s" % rc])[0]
+                reason = ("data race: " + " | ".join([l.strip().split(" ")[0] for l in tail.split("\n") if lib.REPO_MARK in l][:3])) if race else ([l for l in tail.split("\n") if l.startswith("panic:") or "fatal error" in l] or ["exit %s" % rc])[0]
                 evs.append(dict(ev="crash", reason=reason[:400], scenario={k: x for k, x in last[0].items() if k != "ev"}))
             events += [dict(e, seed=sdd) for e in evs if e["ev"] in ("call", "leak", "crash", "stuck")]
             for e in evs:
